@@ -222,6 +222,19 @@ def many_instances(ctx):
             if k % 3 == 0:
                 steps.append({"it": k, "src": "(mine)"}); expect.append({"y": "macro-of-%d" % k})
         jobs.append({"id": "many-%d" % j, "interps": [], "steps": steps, "fuel": 100000}); plans.append(expect)
+    # one thread on which instance 0 has evaluated thousands of failing forms (failed expansions, faults under nested forms): a second instance, and
+    # instances created afterwards, still expand and evaluate derived forms
+    from . import gen_text
+    n_aging = 12000
+    steps = [{"new": {"stdlib": True}}, {"new": {"stdlib": True}}, {"it": 1, "src": "(define kept 41)"}]
+    expect = [None, None, None]
+    steps += [{"it": 0, "src": t} for t in gen_text.aging(rng, n_aging)]; expect += [None] * n_aging
+    probe = "(let* ((q kept) (r (cond ((and q (or #f q)) => (lambda (v) (+ v 1))) (else 0)))) (when (> r 0) (case r ((42) (list 'fine r)) (else 'bad))))"
+    steps.append({"it": 1, "src": probe}); expect.append({"l": [{"y": "fine"}, {"i": 42}], "t": None})
+    steps.append({"new": {"stdlib": True}}); expect.append(None)
+    steps.append({"it": 2, "src": "(define kept 41)"}); expect.append(None)
+    steps.append({"it": 2, "src": probe}); expect.append({"l": [{"y": "fine"}, {"i": 42}], "t": None})
+    jobs.append({"id": "aged-thread", "interps": [], "steps": steps, "fuel": 100000}); plans.append(expect)
     recs = core.run_jobs(jobs, "dev", timeout=1800, tag="c19m")
     for expect, rec, job in zip(plans, recs, jobs):
         if rec is None or "steps" not in rec:
